@@ -227,6 +227,27 @@ func checkC20(c *Ctx) {
 	// (directly or in the helper that writes and renames) - there is no "nothing to do" shortcut whose bookkeeping can
 	// drift from what is on disk (a digest / dirty flag recorded before the write succeeded makes the retry of a failed
 	// store a silent no-op, and the file is then neither the previous nor the new configuration)
+	// ---- C20.7 the temporary file is a file of its own: nothing in the package makes a second name for an existing file
+	// (a hard link of the live ClientConf shares its inode - the "temporary" write then truncates the live file)
+	r.Rule("C20.7", "the assets package never links or symlinks a file", 1)
+	{
+		nL := 0
+		for _, f := range c.funcsOfPkgs(pkg) {
+			eachInstr(f, func(in ssa.Instruction) {
+				if call, ok := in.(*ssa.Call); ok {
+					switch calleeName(&call.Call) {
+					case "os.Link", "os.Symlink", "syscall.Link", "syscall.Symlink":
+						nL++
+						r.Bad("C20.7", fnName(f)+": "+calleeName(&call.Call), in.Pos(), fnName(f), "a second name is made for an existing file: writing the 'temporary' name then writes the live ClientConf in place, and a crash or write failure leaves it truncated")
+					}
+				}
+			})
+		}
+		if nL == 0 {
+			r.OK("C20.7", "no link / symlink call in the assets package", token.NoPos, "scanned")
+		}
+	}
+
 	r.Rule("C20.6", "saveClientConf reports success only after the rename", 1)
 	if f := c.fn("C20.6", pkg, "assets", "saveClientConf"); f != nil {
 		rnL, okR := findOneDeep(f, nameIs("os.Rename"))
